@@ -322,3 +322,16 @@ class ZkProveBulletproofs(_ZkProve):
     name = ZKIF + ":prove#bulletproofs"
     pre_import = ("pysnark.zkinterface.backendbulletproofs",)
     expected_modulus = CURVE25519_L
+
+
+def _zkif_replay(self, ob, cfg):
+    """CPython runs the real zkinterface backend's prove() on the countermodel's traced state, with the ASSUMED
+    Builder contract standing in for the absent flatbuffers library; the clause is re-evaluated on the messages the
+    real code handed to file.write().  (The assumption stays: this confirms the code side, not the bytes.)"""
+    from .qaptools_c import _qap_replay
+    res = _qap_replay(self, ob, cfg, kind="zkif")
+    res["note"] = "flatbuffers.Builder replaced by the assumed call-level contract (library absent in this sandbox)"
+    return res
+
+
+_ZkProve.native_replay = _zkif_replay
